@@ -163,7 +163,7 @@ let () =
         | Some m ->
           (match find_addr (zi a) m.m_servers with
            | Some sv when iz sv.sv_fail > 0 ->
-             incr n_early; ignore why; ahead := true;
+             incr n_early; ahead := true;
              (match mon_step m (OGood (zi a)) with Some m' -> mon := Some m'; refresh_pending () | None -> ())
            | _ -> ()) in
       let label_count name = List.length (List.filter (fun x -> x <> "") (split_on '.' name)) in
@@ -297,7 +297,22 @@ let () =
                    if deferred_ok then incr n_deferred;
                    let first_tx = not (Hashtbl.mem retx id) in
                    feed ~skip_mon:deferred_ok (OTx (nat_of_int id, zi a, probe)) (Printf.sprintf "TX id=%d -> 10.0.0.%d%s" id a (if probe then " (probe)" else ""));
-                   if probe then expect_probe := None
+                   if probe then begin
+                     expect_probe := None;
+                     (* the CONFIGURED failover options of the case: chance 0 disables probing; a server is
+                        probed only once its retry time (last failure + configured delay) has passed *)
+                     if chance = 0 then
+                       add_fail "probe-unexpected" (Printf.sprintf "op [%s]: TX id=%d -> 10.0.0.%d is a probe copy although the configured retry chance is 0 (probing disabled)" !cur_op id a)
+                     else if first_tx then
+                       (match Hashtbl.find_opt retry a with
+                        | Some (rs, ru) ->
+                          let (ns, nu) = now_pair () in
+                          (match c_ares_timedout ns rs nu ru with
+                           | Ok t when iz t = 0 ->
+                             add_fail "probe-unexpected" (Printf.sprintf "op [%s]: TX id=%d -> 10.0.0.%d is a probe copy sent at %d.%03d ms, before the retry time of that server (last failure + configured delay %d ms = %s.%06d s)" !cur_op id a !clock_ms !clock_us delay (string_of_z rs) (iz ru))
+                           | _ -> ())
+                        | None -> ())
+                   end
                    else if first_tx && Hashtbl.find_opt qtry id = Some 0 && !pending_user && chance = 1 && field w "proto" = Some "udp" then begin
                      (* the first attempt of a new request went to a server without failures and every draw
                         says "probe" (chance 1): if some failed server is past its retry time and has no
